@@ -48,8 +48,8 @@ func (m *vpC22Mesh) RelayUDPDatagram(id uint64, destAddr net.Addr, destPort uint
 	return nil
 }
 func (m *vpC22Mesh) CloseUDPAssociation(id uint64) {}
-func (m *vpC22Mesh) IsUDPEnabled() bool             { return true }
-func (m *vpC22Mesh) count() int                     { m.mu.Lock(); defer m.mu.Unlock(); return len(m.relayed) }
+func (m *vpC22Mesh) IsUDPEnabled() bool            { return true }
+func (m *vpC22Mesh) count() int                    { m.mu.Lock(); defer m.mu.Unlock(); return len(m.relayed) }
 
 func vpC22Datagram(tag string, malformed bool) []byte {
 	if malformed {
